@@ -86,6 +86,10 @@ struct Ref {
         long obj[3] = {0, 0, 0};
         bool has_tags[3] = {false, false, false};
         std::vector<int> tags[3];
+        // tags of a name are "unspecified" once something happened that the property
+        // does not define (tags added for a name that holds no object, or a name that
+        // is created while such tags exist): tag queries for it then accept any answer
+        bool unspec[3] = {false, false, false};
     };
     using State = St;
     State initial() const { return St(); }
@@ -93,7 +97,7 @@ struct Ref {
     {
         std::string k;
         for (int i = 0; i < 3; i++) {
-            k += std::to_string(s.obj[i]) + (s.has_tags[i] ? "T" : "-");
+            k += std::to_string(s.obj[i]) + (s.has_tags[i] ? "T" : "-") + (s.unspec[i] ? "?" : "");
             for (int t : s.tags[i]) k += std::to_string(t);
             k += "|";
         }
@@ -115,6 +119,7 @@ struct Ref {
                 State t = s;
                 if (fresh) {
                     t.obj[n] = e.b;
+                    if (t.has_tags[n]) t.unspec[n] = true;  // created on top of orphan tags
                     if (e.op == OP_ADD_TYPED && !t.has_tags[n]) {
                         t.has_tags[n] = true;
                         t.tags[n] = {(int)e.r2};
@@ -125,6 +130,7 @@ struct Ref {
             }
             case OP_ADD_TYPE: {
                 State t = s;
+                if (s.obj[n] == 0) t.unspec[n] = true;  // tags for a name that holds no object
                 t.has_tags[n] = true;
                 t.tags[n].push_back((int)e.b);
                 out.push_back(t);
@@ -137,6 +143,7 @@ struct Ref {
                 State t = s;
                 if (ok) {
                     t.obj[to] = s.obj[n];
+                    if (s.unspec[n] || t.has_tags[to]) t.unspec[to] = true;
                     if (s.has_tags[n] && !t.has_tags[to]) {
                         t.has_tags[to] = true;
                         t.tags[to] = s.tags[n];
@@ -153,6 +160,7 @@ struct Ref {
                     t.obj[n] = 0;
                     t.has_tags[n] = false;
                     t.tags[n].clear();
+                    t.unspec[n] = false;
                 }
                 out.push_back(t);
                 return;
@@ -168,6 +176,7 @@ struct Ref {
                         t.obj[i] = 0;
                         t.has_tags[i] = false;
                         t.tags[i].clear();
+                        t.unspec[i] = false;
                         out.push_back(t);
                     }
                 if (!any && e.r == 0) out.push_back(s);
@@ -184,14 +193,19 @@ struct Ref {
                 return;
             }
             case OP_FIND_PRED_TYPE: {
-                bool any = false;
+                bool any = false, maybe = false;
                 for (int i = 0; i < 3; i++)
-                    if (s.obj[i] == e.a && has_tag(s, i, (int)e.b)) any = true;
-                if ((any && e.r == e.a) || (!any && e.r == 0)) out.push_back(s);
+                    if (s.obj[i] == e.a) {
+                        if (s.unspec[i]) maybe = true;
+                        else if (has_tag(s, i, (int)e.b)) any = true;
+                    }
+                if ((any && e.r == e.a) || (!any && !maybe && e.r == 0) ||
+                    (maybe && (e.r == 0 || e.r == e.a)))
+                    out.push_back(s);
                 return;
             }
             case OP_CHECK_TYPE:
-                if ((e.r != 0) == has_tag(s, n, (int)e.b)) out.push_back(s);
+                if (s.unspec[n] || (e.r != 0) == has_tag(s, n, (int)e.b)) out.push_back(s);
                 return;
             case OP_GET_OBJECTS: {
                 std::vector<long> ids;
